@@ -290,6 +290,9 @@ var c13HostileSegs = []string{
 	strings.Repeat("q", 255), strings.Repeat("r", 256),
 }
 
+// around bolt's maximum key size (32768); picked rarely, they are expensive
+var c13GiantSegs = []string{strings.Repeat("K", 32700), strings.Repeat("J", 32768)}
+
 var c13Afters = []string{"", ".", "..", "../x", "a/", "a/b", "a/../b", "\xff", "/", "~", "./a", "a/.", "-", "0", "a", "b", "ab/../../b", "a//", "\x00"}
 
 var c13Limits = []int{-1, 0, 1, 2, 3, 1000, -7, 1, 2}
@@ -307,7 +310,11 @@ func c13Gen(seed int64, index int, nops int) *c13Seq {
 	}
 	if s.Hostile {
 		for i := 0; i < 1+rng.Intn(2); i++ {
-			segs = append(segs, kit.Pick(rng, c13HostileSegs))
+			if rng.Chance(1, 15) {
+				segs = append(segs, kit.Pick(rng, c13GiantSegs))
+			} else {
+				segs = append(segs, kit.Pick(rng, c13HostileSegs))
+			}
 		}
 	}
 	seg := func() string { return kit.Pick(rng, segs) }
@@ -324,7 +331,7 @@ func c13Gen(seed int64, index int, nops int) *c13Seq {
 		if !s.Hostile && c13Irregular(k) {
 			return
 		}
-		if len(k) > 1500 {
+		if len(k) > 1500 && (!s.Hostile || len(k) > 33000) {
 			return
 		}
 		if !keyset[k] {
@@ -525,7 +532,7 @@ func c13Gen(seed int64, index int, nops int) *c13Seq {
 		emit(c13Op{Kind: "put", Key: kit.Pick(rng, s.Keys), Val: val()})
 	}
 	for len(s.Ops) < nops {
-		if rng.Chance(1, 9) {
+		if rng.Chance(1, 7) {
 			ro := rng.Chance(1, 5)
 			emit(c13Op{Kind: "begin", RO: ro})
 			for i, n := 0, 2+rng.Intn(9); i < n; i++ {
